@@ -103,6 +103,7 @@ def handleCase (f : List String) : Except String Verdict := do
     if let some es := ast then
       if render es != header then throw "outside-domain: header is not the rendering of the ast"
     if header.any (fun c => c == 10 || c == 13 || c == 0 || c > 255) then throw "outside-domain: CR/LF/NUL in header"
+    if offers.any (fun o => o.any fun c => c == 10 || c == 13 || c == 0 || c > 255) then throw "outside-domain: CR/LF/NUL in an offer"
     let isMedia := kind == "a" || kind == "f"
     if !(kind == "a" || kind == "c" || kind == "e" || kind == "l" || kind == "f") then throw "outside-domain: kind"
     let mime : Bytes → Bytes := fun e => match mimes.find? (·.1 == e) with
